@@ -294,11 +294,14 @@ CHECKS = {
         "level": "exploration",
         "rule": "cases = random scenes (tile data, both maps, 40 clustered objects with all attribute combinations, SCX/SCY, WX/WY in/out of range, palettes, all 64 values of LCDC "
                 "bits 1-6) rendered by VideoState over one frame from power-on until the VBlank request; the 160x144 visible buffer must equal a pure reference renderer. "
+                "Every second scene (thorough: every scene) is followed by a second frame on the same controller after the scene was changed during vertical blank (tile data "
+                "redrawn, scroll/window moved by less than a tile, maps rewritten, objects moved, palettes and one LCDC bit, or a new scene); a third of the scenes use uniform tile maps. "
                 "distinct_nontrivial = distinct scenes",
         "phases": [{"variant": "interp-dbg", "monitor": "c15", "shards": 16, "tiers": ("quick",)},
                    {"variant": "interp-rel", "monitor": "c15", "shards": 16, "tiers": ("thorough",)},
                    miri_phase("c15", 1920)],
-        "floors": {"quick": {"evaluations": 1_800, "scenes-with-window-pixels": 300, "scenes-with-object-pixels": 450, "scenes-with-8x16-object-pixels": 180, "scenes-with-more-than-10-objects-on-a-line": 150},
+        "floors": {"quick": {"evaluations": 1_800, "scenes-with-window-pixels": 300, "scenes-with-object-pixels": 450, "scenes-with-8x16-object-pixels": 180, "scenes-with-more-than-10-objects-on-a-line": 150,
+                             "second-frames-after-a-change-in-vblank": 900},
                    "thorough": {"evaluations": 19_000}},
         "exhaustive": {"quick": False, "thorough": False},
         "assumptions": ["DMG behaviour; registers, VRAM and OAM constant over the frame, LCD and BG enabled (as the property states)"],
